@@ -7,5 +7,8 @@ CONSTANTS
   NsTys = {"i32"}
   NsFamilies = {"namesake-exit", "namesake-operand", "namesake-return", "namesake-arg", "namesake-let", "namesake-field", "exit-forbidden", "return-type", "arg-type", "let-type", "operand-str", "cond-nonbool"}
   RenameTys = {"i32"}
+  SwapMethods = {"len", "join", "contains", "to_string"}
+  DivTys = {"i32"}
+  DivDeepFns = {"dv1"}
 INVARIANTS SeedWellTyped MutantIllTyped Emit
 CHECK_DEADLOCK FALSE
